@@ -21,7 +21,10 @@ import (
 // hostile function zoo (ordinary file of the home package) named by :conv/:preprocess/:postprocess
 const c14Zoo = `package home
 
+type MyErr interface{ Error() string }
+
 type HA struct {
+	PE  *MyErr
 	X   int
 	S   string
 	E   error
@@ -32,6 +35,7 @@ type HA struct {
 }
 
 type HB struct {
+	PE  *error
 	X   int
 	S   string
 	E   error
@@ -341,9 +345,43 @@ func TestC14(t *testing.T) {
 			return rapid.SampledFrom([]string{"X", "S", "E", "I", "P", "PP", "Err", "Un", "P.X", "Get()", "ErrGet()", "$2", "$3", "arg", "return", "name", "none", "r", "\"lit\"", "1"}).Draw(rt, "valid")
 		}
 	}
+	dstFields := []string{"X", "S", "E", "I", "P", "PP", "Err", "Un", "PE", "P.X", "P.P.X"}
+	srcPaths := []string{"X", "S", "E", "I", "P", "PP", "Err", "PE", "P.X", "Get()", "ErrGet()", "Two()", "WithArg()", "Nothing()", "P.Get()", "$1", "$2", "$3", "$0", "$-1", "$1.X", "$2.X", "$9", "$99999999999999999999", "$", "$x", "$1.", "$1..X", "$2.Get()"}
+	seps := []string{" ", " ", " ", " ", "  ", "\t", "\u00a0", "\v", "\u2003", "\u3000", "\f"}
 	genLine := func(rt *rapid.T) (string, bool) {
 		if rapid.IntRange(0, 3).Draw(rt, "validLine") == 0 {
 			return rapid.SampledFrom(validNotes).Draw(rt, "vn"), false
+		}
+		// semi-valid: a known notation whose arguments are mostly well-formed, one of them odd, so that the
+		// input gets past the argument-count checks into resolution and code generation
+		if rapid.IntRange(0, 1).Draw(rt, "semiValid") == 0 {
+			pick := func(valid []string, label string) string {
+				if rapid.IntRange(0, 4).Draw(rt, label+"Hostile") == 0 {
+					return rapid.SampledFrom(c14Hostile).Draw(rt, label+"H")
+				}
+				return rapid.SampledFrom(valid).Draw(rt, label)
+			}
+			sep := rapid.SampledFrom(seps).Draw(rt, "sep")
+			var parts []string
+			switch rapid.IntRange(0, 5).Draw(rt, "semiKind") {
+			case 0:
+				parts = []string{":map", pick(srcPaths, "msrc"), pick(dstFields, "mdst")}
+			case 1:
+				parts = []string{":conv", pick(c14Convs, "cfn"), pick(srcPaths, "csrc")}
+				if rapid.Bool().Draw(rt, "cdst") {
+					parts = append(parts, pick(dstFields, "cdstf"))
+				}
+			case 2:
+				parts = []string{":literal", pick(dstFields, "ldst"), rapid.SampledFrom([]string{"1", "\"x\"", "nil", "HB{}", "a b c", ")(", "func() {}", "[]int{1}", "1 +", "\"unterminated", "'", "x.y.z", "/*", "*/", "//", "{", "}}"}).Draw(rt, "lit")}
+			case 3:
+				parts = []string{":skip", rapid.SampledFrom([]string{"X", "x", "/X/", "/^P/", "/./", "//", "/(/", "/\\pL/", "/[a-/", "P.X", "/P\\.X/", "/(?i)x/", "/(?P<n>X)/", "/X{1,2000}/", "/\\C/"}).Draw(rt, "skipPat")}
+			case 4:
+				parts = []string{":" + rapid.SampledFrom([]string{"preprocess", "postprocess"}).Draw(rt, "hk"), pick(c14Hooks, "hfn")}
+			default:
+				parts = []string{":recv", rapid.SampledFrom([]string{"r", "x", "dst", "src", "err", "arg0", "_", "1a", "a-b", "ünï", "type", "func", "HA"}).Draw(rt, "rv")}
+			}
+			// the notation name is followed by an ordinary blank; the odd separator sits between the arguments
+			return parts[0] + " " + strings.Join(parts[1:], sep), true
 		}
 		name := rapid.SampledFrom(c14Notations).Draw(rt, "notation")
 		n := rapid.IntRange(0, 4).Draw(rt, "nargs")
@@ -354,10 +392,31 @@ func TestC14(t *testing.T) {
 		sep := rapid.SampledFrom([]string{" ", " ", " ", "  ", "\t", ""}).Draw(rt, "sep")
 		return strings.Join(parts, sep), true
 	}
+	focus := false
+	inner := genLine
+	genLine = func(rt *rapid.T) (string, bool) {
+		// focused cases: at most one odd line per case, everything else valid, so that the odd line is
+		// what reaches name resolution and code generation instead of dying with a neighbour's parse error
+		if focus {
+			if rapid.IntRange(0, 3).Draw(rt, "focusOdd") != 0 {
+				return rapid.SampledFrom(validNotes).Draw(rt, "fvn"), false
+			}
+			for i := 0; i < 20; i++ {
+				if l, h := inner(rt); h {
+					return l, h
+				}
+			}
+		}
+		return inner(rt)
+	}
 	rapidRun(t, env, "hostile", env.Pick(1600, 60000), func(rt *rapid.T) {
 		var sb strings.Builder
 		hostile := false
 		methods := 0
+		focus = rapid.IntRange(0, 1).Draw(rt, "focus") == 0
+		if focus {
+			rec.Class("hostile:focused-case")
+		}
 		switch rapid.IntRange(0, 24).Draw(rt, "fileKind") {
 		case 0:
 			sb.WriteString("//go:build convergen\n\npackage home\n\ntype Plain interface {\n\tConvertNothing(*HA) *HB\n}\n\nvar x = 1\n")
@@ -403,7 +462,7 @@ func TestC14(t *testing.T) {
 						sb.WriteString("\t// " + strings.ReplaceAll(l, "\n", " ") + "\n")
 					}
 					sig := "(*HA) *HB"
-					if rapid.IntRange(0, 2).Draw(rt, "oddSig") == 0 {
+					if rapid.IntRange(0, 2).Draw(rt, "oddSig") == 0 && !focus {
 						sig = rapid.SampledFrom(c14Methods).Draw(rt, "sig")
 						hostile = true
 					}
